@@ -578,8 +578,10 @@ fn scalars(ctx: &mut Ctx) {
     }
     // nested use of the scalar drivers: the input is a Dual64 with a non-unit direction, so every
     // returned component carries the next derivative in its eps part (4th order for third_derivative)
-    // (which = 2: the argument is first sent through recip().recip(), the identity, exact at powers of
-    // two - this brings the chain rule of each outer type, applied to a dual inner type, into the path)
+    // (which = 2: the polynomial is multiplied by t.recip() * t, the constant one, exact at powers of
+    // two - this brings the chain rule of each outer type, applied to a dual inner type, into the path;
+    // recip().recip() would not do: the identity has a constant derivative, so a chain rule that drops
+    // the inner parts of f' drops nothing)
     for which in 0..3 {
         let p0 = Poly::new(1, which + 30, 5);
         let xlist: [i64; 3] = if which == 2 { [2, -1, 4] } else { [2, -1, 3] };
@@ -588,19 +590,19 @@ fn scalars(ctx: &mut Ctx) {
             let p = if which == 0 { p0.clone().over(&xs) } else { p0.clone() };
             let dir = 3.0;
             let xd = Dual64::new(x as f64, dir);
-            let c = json!({"x": x, "direction": dir, "rational": which == 0, "through_recip_recip": which == 2});
+            let c = json!({"x": x, "direction": dir, "rational": which == 0, "times_recip_times_t": which == 2});
             let dn = |k: usize| p.d(&vec![0usize; k], &xs);
-            let (f, d1) = first_derivative(|t: Dual<Dual64, f64>| p.eval(&[if which == 2 { t.recip().recip() } else { t }]), xd);
+            let (f, d1) = first_derivative(|t: Dual<Dual64, f64>| if which == 2 { p.eval(&[t]) * (t.recip() * t) } else { p.eval(&[t]) }, xd);
             for (name, got, k) in [("value", f, 0usize), ("d1", d1, 1)] {
                 ctx.check("first_derivative", "nested T=Dual64", &format!("{name}.re"), got.re, dn(k), c.clone());
                 ctx.check("first_derivative", "nested T=Dual64", &format!("{name}.eps"), got.eps, dir * dn(k + 1), c.clone());
             }
-            let (f, d1, d2) = second_derivative(|t: Dual2<Dual64, f64>| p.eval(&[if which == 2 { t.recip().recip() } else { t }]), xd);
+            let (f, d1, d2) = second_derivative(|t: Dual2<Dual64, f64>| if which == 2 { p.eval(&[t]) * (t.recip() * t) } else { p.eval(&[t]) }, xd);
             for (name, got, k) in [("value", f, 0usize), ("d1", d1, 1), ("d2", d2, 2)] {
                 ctx.check("second_derivative", "nested T=Dual64", &format!("{name}.re"), got.re, dn(k), c.clone());
                 ctx.check("second_derivative", "nested T=Dual64", &format!("{name}.eps"), got.eps, dir * dn(k + 1), c.clone());
             }
-            let (f, d1, d2, d3) = third_derivative(|t: Dual3<Dual64, f64>| p.eval(&[if which == 2 { t.recip().recip() } else { t }]), xd);
+            let (f, d1, d2, d3) = third_derivative(|t: Dual3<Dual64, f64>| if which == 2 { p.eval(&[t]) * (t.recip() * t) } else { p.eval(&[t]) }, xd);
             for (name, got, k) in [("value", f, 0usize), ("d1", d1, 1), ("d2", d2, 2), ("d3", d3, 3)] {
                 ctx.check("third_derivative", "nested T=Dual64", &format!("{name}.re"), got.re, dn(k), c.clone());
                 ctx.check("third_derivative", "nested T=Dual64", &format!("{name}.eps"), got.eps, dir * dn(k + 1), c.clone());
@@ -950,7 +952,7 @@ fn main() {
         mode: cli.mode,
         seed: cli.seed,
         start,
-        rule: "the twenty public drivers x input lengths n = 0..6 and output lengths m = 1..6 (static where the type system allows: gradient/hessian n = 1..6, jacobian all (m,n) in 1..6 x 1..6, partial_hessian (m,n) <= 4 and (6,1),(6,6),(1,6); dynamic for all lengths incl. 0) x two integer points x asymmetric integer polynomials containing every monomial of degree <= 3 with pairwise distinct coefficients (so every partial up to order 3 is non-zero and no two are equal) and, for every second function, that polynomial divided by a linear form equal to 2 at the point (quotient rules; all values stay small dyadic rationals); all n^3 index triples of third_partial_derivative_vec for n <= 5; try_ variants with unit-struct, String and integer errors; constant / partially constant functions (absent parts); nested use T = Dual64 (gradient, first/second/third_derivative, second_partial_derivative: the eps parts carry one more derivative order); non-polynomial integrands against reference Taylor coefficients; squares through powi(2) / powf(2) / &q * &q; results with hand-built presence patterns (all 4 of Dual2Vec, all 8 of HyperDualVec); closures written with nalgebra's vector API (norm, norm_squared, normalize, dot) and with the iterator adaptors sum() / product() by reference and by value; the identity recip().recip() in front of a polynomial under the nested scalar drivers; polar coordinates (sqrt, atan2 in both branches and all quadrants) through gradient, hessian, jacobian, partial_hessian and second_partial_derivative. Non-trivial = a derivative entry whose exact value is neither 0 nor 1.".into(),
+        rule: "the twenty public drivers x input lengths n = 0..6 and output lengths m = 1..6 (static where the type system allows: gradient/hessian n = 1..6, jacobian all (m,n) in 1..6 x 1..6, partial_hessian (m,n) <= 4 and (6,1),(6,6),(1,6); dynamic for all lengths incl. 0) x two integer points x asymmetric integer polynomials containing every monomial of degree <= 3 with pairwise distinct coefficients (so every partial up to order 3 is non-zero and no two are equal) and, for every second function, that polynomial divided by a linear form equal to 2 at the point (quotient rules; all values stay small dyadic rationals); all n^3 index triples of third_partial_derivative_vec for n <= 5; try_ variants with unit-struct, String and integer errors; constant / partially constant functions (absent parts); nested use T = Dual64 (gradient, first/second/third_derivative, second_partial_derivative: the eps parts carry one more derivative order); non-polynomial integrands against reference Taylor coefficients; squares through powi(2) / powf(2) / &q * &q; results with hand-built presence patterns (all 4 of Dual2Vec, all 8 of HyperDualVec); closures written with nalgebra's vector API (norm, norm_squared, normalize, dot) and with the iterator adaptors sum() / product() by reference and by value; a polynomial times t.recip() * t (the constant one, through the chain rule) under the nested scalar drivers; polar coordinates (sqrt, atan2 in both branches and all quadrants) through gradient, hessian, jacobian, partial_hessian and second_partial_derivative. Non-trivial = a derivative entry whose exact value is neither 0 nor 1.".into(),
         assumptions: vec!["expected values by symbolic differentiation of the coefficient tables in integer arithmetic (Leibniz rule for the quotient by the linear form); all values are small integers or dyadic rationals, so equality is exact".into()],
         extra: json!({"oracle": "exact integer partial derivatives; Err identity; Ok results bit-equal to the infallible variants"}),
         exhaustive: true,
